@@ -91,7 +91,7 @@ CHECKS = {
              'into a concrete two-call history and replayed. (a) frame condition on every path incl. raising ones: arguments, machine state and other machines structurally unchanged. '
              '(c) dis / lift / asm: per path of the symbolic decoder exploration, the same symbolic bytes are decoded and lifted twice around a fixed interleaving of other calls (other decodes incl. a truncated one, assemblies incl. raising ones): '
              'the second instruction and assignment list equal the first for all byte values (SMT), the byte container and the instruction object are unchanged, and a deep fingerprint of the opcode trie, mnemonic objects, ModRM/SIB, register and lifter tables is unchanged after every row; '
-             'the same for asm(line) with symbolic numbers. Not addressed: on-disk PLY parser tables, general histories up to 50 calls.',
+             'the same for asm(line) with symbolic numbers; at every path witness (concrete, labelled so) the instruction is rendered twice in both syntaxes: equal texts, instruction object unchanged. Not addressed: on-disk PLY parser tables, general histories up to 50 calls.',
         note='Trusted: z3, SInt proxy, the admissibility predicate for memo flags (stated in evidence bounds). Clauses about the parser-table cache directory and CPython heap aliasing are outside the claim.',
         design='5/C12', engine='E2'),
     'C17': dict(
@@ -140,7 +140,7 @@ CHECKS = {
         level='model_checking',
         technique='E1 dependency queries (z3): for each decoded instruction, "two pre-states differing in one resource give different reference results" must be unsat for every resource outside the reported read set; writes compared with the reference',
         text='For every integer-core instruction (reference = vf/x86spec/sem.py) each register, flag and memory operand on which the reference result depends (SMT dependency query over all states) must be in get_instr_expr-derived read set; '
-             'every resource the reference can modify must be in the write set ("exists a state with post != pre" unsat otherwise); every memory location the reference reads must provably meet an ExprMem of the sets and every location it writes an ExprMem of the write set, in every state. MMX/SSE instructions lifted through the uninterpreted MMX operator: operand inclusion on every decoder path (source operand, address registers, destination, flags of comis/ucomis/ptest) - structural. Partial claim: x87 is not covered.',
+             'every resource the reference can modify must be in the write set ("exists a state with post != pre" unsat otherwise); every memory location the reference reads must provably meet an ExprMem of the sets and every location it writes an ExprMem of the write set, in every state. MMX/SSE instructions lifted through the uninterpreted MMX operator: operand inclusion on every decoder path (source operand, address registers, destination, flags of comis/ucomis/ptest) - structural. x87: memory forms of the escape opcodes d8..df on every decoder path: the operand cell is in the read set (loads, arithmetic, compares) or the write set (stores) according to an SDM table keyed by escape byte and ModRM reg field, its address registers and, where consumed, st(0) are read - structural. Partial claim: x87 register-stack forms are not judged.',
         note='Trusted: z3, E1, the validated reference semantics. Bounds: one instruction, flat memory; over-approximation is accepted; self-dependency of conditionally preserved resources excluded.',
         design='5/C08', engine='E2+E1'),
     'C11': dict(
